@@ -472,6 +472,7 @@ not have any effect."""
             # dummy constraint, just to check the literals once
             self._check_and_update([(1,l) for l in lits]+ ['==',0])
 
+        lits = list(lits)
         n = len(lits)
         if value < 0 or value > n:
             return
